@@ -227,6 +227,21 @@ func c12Gen(tier string, shard, nshards int, emit func(sc *world.Scenario) bool)
 			stop = true
 		}
 	}
+	emitRaw := func(sc *world.Scenario) bool {
+		if stop {
+			return false
+		}
+		idx++
+		if idx%nshards != shard {
+			return true
+		}
+		sc.Name += "/pw"
+		if !emit(sc) {
+			stop = true
+			return false
+		}
+		return true
+	}
 	// (a) all byte strings up to length L over the alphabet
 	L := 4
 	if thorough {
@@ -245,6 +260,23 @@ func c12Gen(tier string, shard, nshards int, emit func(sc *world.Scenario) bool)
 		}
 	}
 	gen(nil)
+	// (h) a password is configured: AUTH with arguments of every length 0..20 and much longer (right and wrong ones)
+	for n := 0; n <= 20; n++ {
+		for _, base := range []string{"secretsecretsecretsecret", "xxxxxxxxxxxxxxxxxxxxxxxx"} {
+			sc := c12Scenario(fmt.Sprintf("auth-len%d-%c", n, base[0]), world.Cmd("auth", base[:n]), nil)
+			sc.Password = "secret"
+			if !emitRaw(sc) {
+				return
+			}
+		}
+	}
+	for _, n := range []int{64, 300, 5000} {
+		sc := c12Scenario(fmt.Sprintf("auth-len%d", n), world.Cmd("auth", strings.Repeat("s", n)), nil)
+		sc.Password = "secret"
+		if !emitRaw(sc) {
+			return
+		}
+	}
 	// (g) LONG invalid inputs (what the proxy logs about a rejected input must not depend on its size): non-RESP lines and
 	// garbage of 1000..70000 bytes, a bad bulk length followed by kilobytes of payload, an HTTP request
 	for _, n := range []int{1000, 1023, 1024, 1025, 1026, 2047, 2049, 3000, 4097, 70000} {
@@ -379,6 +411,10 @@ func c12FromName(name string) *world.Scenario {
 	sc := c12Scenario(parts[1], in, cuts)
 	if strings.HasPrefix(parts[1], "bomb") {
 		sc.Family = "bomb"
+	}
+	if strings.HasSuffix(name, "/pw") {
+		sc.Password = "secret"
+		sc.Name += "/pw"
 	}
 	return sc
 }
